@@ -16,6 +16,7 @@ func init() {
 		ops[op] = opBlock
 	}
 	ops["TxWrap"] = opTxWrap
+	ops["TwoBlocks"] = opTwoBlocks
 	families["C16"] = runC16
 }
 
@@ -200,6 +201,33 @@ func opBlock(h *HState, a Event) Event {
 	return panicField(e, p, pm)
 }
 
+// opTwoBlocks: A.Bytes(), then a second block B (not larger than A) is built and serialised, then A is read again:
+// a block's cached serialisation is its own (no scratch buffer shared between blocks).
+func opTwoBlocks(_ *HState, a Event) Event {
+	na, nb := gInt(a, "na"), gInt(a, "nb")
+	ma, mb := mkBlock(na, uint32(gInt(a, "salt"))), mkBlock(nb, uint32(gInt(a, "salt")+1))
+	e := with(a, "sera", ints(serBlock(ma)), "a1", []int{}, "a2", []int{}, "b1", []int{}, "serb", ints(serBlock(mb)), "reparse", false)
+	p, msg := guard(func() {
+		var A, B *bchutil.Block
+		if gBool(a, "reader") {
+			A, _ = bchutil.NewBlockFromReader(bytes.NewReader(serBlock(ma)))
+			B, _ = bchutil.NewBlockFromReader(bytes.NewReader(serBlock(mb)))
+		} else {
+			A, B = bchutil.NewBlock(ma), bchutil.NewBlock(mb)
+		}
+		x, _ := A.Bytes()
+		e["a1"] = ints(x)
+		y, _ := B.Bytes()
+		e["b1"] = ints(y)
+		z, _ := A.Bytes()
+		e["a2"] = ints(z)
+		if rb, err := bchutil.NewBlockFromBytes(z); err == nil {
+			e["reparse"] = *rb.Hash() == ma.BlockHash()
+		}
+	})
+	return panicField(e, p, msg)
+}
+
 func opTxWrap(_ *HState, a Event) Event {
 	msg := mkBlock(1+gInt(a, "k")%3, uint32(gInt(a, "salt"))).Transactions[0]
 	fh := msg.TxHash()
@@ -213,9 +241,14 @@ func opTxWrap(_ *HState, a Event) Event {
 		t.SetIndex(gInt(a, "setindex"))
 		e["index1"] = t.Index()
 		fb := []int{}
+		e["frombytes_index"], e["fromreader_index"] = -99, -99
 		if t2, err := bchutil.NewTxFromBytes(append(serTx(msg), 9, 9)); err == nil {
+			e["frombytes_index"] = t2.Index() // a transaction that is in no block: index unknown
 			x := t2.Hash()
 			fb = ints(x[:])
+		}
+		if t3, err := bchutil.NewTxFromReader(bytes.NewReader(serTx(msg))); err == nil {
+			e["fromreader_index"] = t3.Index()
 		}
 		e["frombytes_hash"] = fb
 	})
@@ -271,6 +304,10 @@ func runC16(c *Ctx) {
 	for i, n := range []int{252, 253, 254, c.Pick(300, 1000)} {
 		c.Run([]Event{{"op": "BlockNew", "n": n, "salt": 7700 + i, "ctor": ctors[(i+1)%len(ctors)], "token": false},
 			{"op": "TxLoc"}, {"op": "Bytes"}, {"op": "Tx", "i": n - 1}, {"op": "TxHash", "i": 0}, {"op": "TxLoc"}})
+	}
+	for k := 0; k < c.Pick(12, 120); k++ {
+		na := 1 + r.Intn(6)
+		c.Call(Event{"op": "TwoBlocks", "na": na, "nb": 1 + r.Intn(na), "salt": int(r.Int31n(60000)), "reader": k%2 == 1})
 	}
 	for k := 0; k < c.Pick(20, 200); k++ {
 		c.Call(Event{"op": "TxWrap", "k": k, "salt": int(r.Int31n(60000)), "setindex": r.Intn(100) - 1})
